@@ -4,7 +4,7 @@ import (
 	. "verif/mc/refsem"
 )
 
-// Seed programs: model ASTs that together use every statement and expression
+// Seed programs (17): model ASTs that together use every statement and expression
 // form. Each prints in BEGIN before anything else. Used by C11 (syntax
 // splices), C12 (error positions) and C13 (layout neighbourhoods).
 
@@ -142,6 +142,18 @@ func seedPrograms() []*progCase {
 	// 16 bare print followed by further statements, body-less rule, statements after blocks
 	add([]inFile{{"in.json", `[4,5]`}}, nil, begin(),
 		&Rule{Body: Blk(Pr(), Ex(Asg("=", V("x"), Bin("+", V("x"), V("$")))), Pr(), &If{Cond: num("1"), Then: Blk(Pr(S("x"), V("x")))}, Pr(S("after block")), &Exit{})},
+	)
+	// 17 the one-word statements (return, break, continue, next, exit) each followed by another statement of the same block
+	add([]inFile{{"in.json", `[4,5,6]`}}, []*Func{
+		{Name: "g", Params: []string{"a"}, Body: Blk(&If{Cond: Bin(">", V("a"), num("5")), Then: &Return{}}, Pr(S("small"), V("a")), &If{Cond: Bin(">", V("a"), num("2")), Then: Blk(&Return{}, Pr(S("dead")))}, &Return{X: V("a")}, Pr(S("dead")))},
+	}, begin(
+		Pr(CallE(V("g"), num("7")), CallE(V("g"), num("1")), CallE(V("g"), num("3"))),
+		&For{Init: Asg("=", V("i"), num("0")), Cond: Bin("<", V("i"), num("4")), Post: &Postfix{"++", V("i")}, Body: Blk(
+			&If{Cond: Bin("==", V("i"), num("1")), Then: Blk(&Continue{}, Pr(S("dead")))}, Pr(S("i"), V("i")), &If{Cond: Bin("==", V("i"), num("2")), Then: Blk(&Break{}, Pr(S("dead")))}, Pr(S("x")))},
+		&While{Cond: num("1"), Body: Blk(&Break{}, Pr(S("dead")))},
+	),
+		&Rule{Body: Blk(&If{Cond: Bin("==", V("$"), num("4")), Then: Blk(&Next{}, Pr(S("dead")))}, Pr(S("el"), V("$")), &If{Cond: Bin("==", V("$"), num("5")), Then: Blk(&Exit{}, Pr(S("dead")))}, Pr(S("after")))},
+		&Rule{Kind: "END", Body: Blk(Pr(S("never")))},
 	)
 	return out
 }
